@@ -72,7 +72,7 @@ def ds(harness, k, vs=None, ncpu=2, mode="pb", jobs=4, **kw):
     vs = variants(harness) if vs is None else vs
     out = []
     for v in vs:
-        t = {"engine": "dsched", "harness": harness, "variant": v, "k": k, "ncpu": ncpu, "mode": mode, "jobs": jobs}
+        t = {"engine": "dsched", "harness": harness, "variant": v, "k": k, "ncpu": ncpu, "mode": mode, "jobs": jobs, "keep_going": True}
         t.update(kw)
         out.append(t)
     return out
@@ -102,6 +102,15 @@ def _qplan(what, quick, thorough):
 
 
 PLAN = {
+    "C06": _qplan("suspend/resume/activate scripts from 1-3 threads on one queue (racing pairs at inline depth 0/62/63, suspend from an item or a barrier item, blocked dispatch_sync, "
+                  "initially-inactive queues) plus sequential nesting histories of depth 1..130 and walks across the side-counter boundaries",
+                  "k<=3 for the sequential histories, k<=2 for the scripts (k<=1 on concurrent queues)", "k<=4 / k<=3 / k<=2"),
+    "C07": _qplan("enter/leave/group_async/notify/wait(forever, 1 ms, now) programs on one group from 1-3 threads incl. regeneration; timeouts race through 'deadline elapses first' choices",
+                  "k<=3 without queues, k<=2 with notify/group_async from 2 threads, k<=1 for 3-thread and global-queue programs", "k<=4 / k<=2 / k<=2 / k<=1"),
+    "C08": _qplan("all wait(forever/1 ms/now)/signal programs of 2 threads x <=2 ops and 3 threads x 1 op on a semaphore of value 0 or 1 (232 programs; thorough adds 982 three-thread programs), final drain",
+                  "k<=3 deviations (preemptions + timeout-first choices) for all 232 programs", "k<=4 for the 232 programs, k<=3 for the 982 three-thread programs"),
+    "C15": _qplan("DATA_ADD/OR/REPLACE sources on serial/concurrent/global targets, 1-3 merging threads x <=3 merges, suspended-while-merging and merge-from-handler variants, final sentinel merge",
+                  "serial target: k<=2 for 4 scripts, k<=1 for the rest; pool targets: k<=1 for the 2-thread and single-thread scripts", "k<=2 everywhere except 3-thread scripts on pool targets (k<=1)"),
     "C01": _qplan("2-3 client threads, 1-3 submissions each over serial/concurrent/global/chained queues, ping-pong, gated and cold-pool variants",
                   "k<=2 for programs on serial hierarchies, k<=1 for programs that run on the pool concurrently",
                   "k<=3 / k<=2 (programs cut by the deadline report their completed bound)"),
@@ -182,6 +191,39 @@ def tasks_for(pid, tier):
     if pid == "C09":
         return (ds("once", 3 if q else 4, [0, 1]) + ds("once", 3, [2, 3]) +
                 ds("once", 2 if q else 3, [4, 5], jobs=4 if q else 8))
+    if pid == "C06":
+        # 0-17 scenarios (9 and 12 run on a concurrent queue), 18-39 sequential depth histories
+        small = [v for v in range(0, 18) if v not in (9, 12)]
+        return (ds("suspend", 3 if q else 4, list(range(18, 40)), jobs=2) + ds("suspend", 2 if q else 3, small) +
+                ds("suspend", 1 if q else 2, [9, 12], jobs=8))
+    if pid == "C07":
+        pure = list(range(0, 16))
+        two_q = [16, 17, 18, 19, 21, 23, 24, 25, 28, 29, 30, 31, 33, 34, 35, 39, 41]
+        three_q = [20, 22, 26, 27, 32, 40]
+        glob = [36] if q else [36, 37]
+        return (ds("group", 3 if q else 4, pure, jobs=2) + ds("group", 2, two_q, jobs=6) +
+                ds("group", 1 if q else 2, three_q, jobs=8) + ds("group", 1, glob, jobs=8) +
+                ds("group", 0 if q else 1, [38], jobs=8))
+    if pid == "C08":
+        core = [v for v, d in sorted(descs("sema").items()) if "{core}" in d]
+        rest = [v for v, d in sorted(descs("sema").items()) if "{core}" not in d]
+        if q:
+            return ds("sema", 3, core, jobs=2)
+        return ds("sema", 4, core, jobs=2) + ds("sema", 3, rest, jobs=2)
+    if pid == "C15":
+        out = []
+        for v in variants("source"):
+            ty, tk, sc = v % 3, (v // 3) % 3, v // 9
+            if tk == 0:
+                k = 2 if (not q or sc in (0, 4, 5, 6)) else 1
+                out += ds("source", k, [v], jobs=6)
+            elif q:
+                if (sc == 0 and (tk == 1 or ty == 0)) or sc == 6:
+                    out += ds("source", 1, [v], jobs=8)
+            else:
+                out += ds("source", 1 if sc == 3 else 2, [v], jobs=8)
+        out.sort(key=lambda t: (t["jobs"], t["k"], t["variant"]))
+        return out
     qmap = {"C01": "q01", "C02": "q02", "C03": "q03", "C04": "q04", "C05": "q05"}
     if pid in qmap:
         return qp(qmap[pid], tier, 2 if q else 3, 1 if q else 2)
